@@ -138,6 +138,8 @@ def srcValue (an : Analysis) (args : List String) : Except String GQ :=
   | .ivp s, ["step", v] => do let x ← val v; pure (x / s)
   | .ivp s, ["dc", v] => do let x ← val v; pure (x / s)
   | .ivp s, [v] => do let x ← val v; pure (x / s)
+  | .lap _, ["delta", v] => val v            -- an impulse v·δ(t): transform v
+  | .ivp _, ["delta", v] => val v
   | .ac _, ["ac", v] => val v
   | .ac _, ["ac", v, "0"] => val v
   | .ac _, ["ac", v, "0", _] => val v
